@@ -111,7 +111,22 @@ fn main() {
 	}
 	rep::install_panic_hook();
 	let mut r = rep::Report::new(&prop);
-	let known = props::run(&prop, &ctx, &mut r);
+	// a panic that escapes a monitor: inside the crate under test it is a violation of the monitored property (the monitors
+	// guard every call for which a panic is a legitimate outcome); inside the harness it is a harness error (shard dies => inconclusive)
+	let known = match rep::guard(|| props::run(&prop, &ctx, &mut r)) {
+		Ok(k) => k,
+		Err(p) => {
+			if p.loc.contains("/repo/src/") {
+				let base = if prop == "PROGRAMS" || prop == "C20W" { "C20".to_string() } else { prop.clone() };
+				let sig = format!("{base}|panic-escaped-monitor:{}@{}", p.class(), p.file());
+				r.violate(&sig, &format!("the crate panicked in a call the monitor expects to be total: {} ({})", p.msg, p.loc), || serde_json::json!({"shard": ctx.shard, "nshards": ctx.nshards, "seed": ctx.seed, "location": p.loc}));
+				true
+			} else {
+				eprintln!("harness panic: {} ({})", p.msg, p.loc);
+				std::process::exit(101);
+			}
+		}
+	};
 	if !known {
 		eprintln!("unknown property/command {prop}");
 		std::process::exit(2);
